@@ -24,7 +24,7 @@ const ruleFuzz = "native go fuzzing of ast.Parse / tick.Format on arbitrary vali
 var assumptionsFuzz = []string{
 	"inputs are valid UTF-8, at most 3000 bytes",
 	"programs containing a bare expression statement (a literal, operator expression, lambda or list that is neither declared nor chained) are out of the domain: the statement has no effect and no task script contains one",
-	"known defect classes cannot be avoided by construction on arbitrary inputs: they are recognised on the formatter's output (comment directly after = =~ !~, comment line before a regex line, dbrp name with a double quote, line-break creep) and counted as exclusions",
+	"the known class K7 (comment printed directly after = =~ !~) cannot be avoided by construction on arbitrary inputs: it is recognised on the formatter's output and counted as an exclusion; the repaired classes (K6, K9, K10, K11) are recognised the same way only to name the signature, they are not excluded",
 }
 
 func parseSafe(s string) (n ast.Node, err error) {
